@@ -133,6 +133,7 @@ var registry = map[string]propDef{
 	"C11c": {"other", props.C11composite},
 	"C11f": {"other", props.C11fill},
 	"C11x": {"other", props.C11duplex},
+	"C11e": {"other", props.C11readerr},
 	"C02x": {"other", props.C11duplex},
 	"C12":  {"other", props.C12},
 	"C13":  {"other", props.C13},
@@ -151,6 +152,7 @@ var registry = map[string]propDef{
 	"C04h": {"other", props.C17handle},
 	"C18h": {"other", props.C17handle},
 	"C14v": {"other", props.C14valid},
+	"C14d": {"other", props.C14depth},
 	"C14k": {"other", props.C14seen},
 	"C14x": {"other", props.C14typetext},
 	"C14t": {"other", props.C14types},
